@@ -17,11 +17,30 @@ func init() {
 	gens["C03"] = genC03
 }
 
+// tbuf holds one tie-vector buffer per length: consecutive ud calls with tie vectors of equal
+// length pass the SAME backing array with new contents, as a caller does who edits T in place
+// or reuses a buffer. A UDist is a value; what it returns may depend only on the values in T.
+var tbuf = map[int][]int{}
+
 // ud n1 n2 T cdf|pmf u   |   ud n1 n2 T bounds
 func execUD(a []Tok) string {
 	d := stats.UDist{N1: a[0].Int(), N2: a[1].Int()}
 	if len(a[2].Arr) > 0 {
-		d.T = a[2].Ints()
+		t := a[2].Ints()
+		b, ok := tbuf[len(t)]
+		if !ok {
+			b = make([]int, len(t))
+			tbuf[len(t)] = b
+		}
+		copy(b, t)
+		d.T = b
+		defer func() {
+			for i := range t {
+				if b[i] != t[i] {
+					panic("UDist modified its tie vector")
+				}
+			}
+		}()
 	}
 	switch a[3].Atom {
 	case "cdf":
@@ -116,6 +135,62 @@ func genC02(w *bufio.Writer, tier string, rng *rand.Rand) {
 		}
 	}
 	fmt.Fprintf(w, "ud 3 4 [] bounds\nud 5 2 [2,5] bounds\n")
+	// histories: one distribution size, tie vectors of one length written one after another into
+	// the same buffer, every grid point asked of each, in a process of its own
+	for h := 0; h < pick(tier, 12, 150); h++ {
+		N := 5 + rng.Intn(8)
+		n1 := 1 + rng.Intn(N-1)
+		kparts := 2 + rng.Intn(minI(4, N-1))
+		var vecs [][]int
+		compositions(N, kparts, func(t []int) {
+			if len(t) == kparts {
+				vecs = append(vecs, append([]int(nil), t...))
+			}
+		})
+		rng.Shuffle(len(vecs), func(i, j int) { vecs[i], vecs[j] = vecs[j], vecs[i] })
+		if len(vecs) > 5 {
+			vecs = vecs[:5]
+		}
+		fmt.Fprintf(w, "{{\n")
+		for rep := 0; rep < 2; rep++ {
+			for _, t := range vecs {
+				for twoU := 0; twoU <= 2*n1*(N-n1); twoU++ {
+					if rng.Intn(3) == 0 {
+						continue
+					}
+					m := "cdf"
+					if rng.Intn(3) == 0 {
+						m = "pmf"
+					}
+					fmt.Fprintf(w, "ud %d %d %s %s %s\n", n1, N-n1, fmtInts(t), m, fmtF(float64(twoU)/2))
+				}
+			}
+		}
+		// the same sizes without ties, both halves of the range, interleaved
+		for q := 0; q < 30; q++ {
+			u := float64(rng.Intn(2*n1*(N-n1)+1)) / 2
+			fmt.Fprintf(w, "ud %d %d [] cdf %s\n", n1, N-n1, fmtF(u))
+			fmt.Fprintf(w, "ud %d %d [] cdf %s\n", n1, N-n1, fmtF(float64(n1*(N-n1))-u-float64(rng.Intn(3))))
+		}
+		fmt.Fprintf(w, "}}\n")
+	}
+	// larger tie-free sizes (products >= 64): mirror points of one size asked one after another
+	for h := 0; h < pick(tier, 10, 200); h++ {
+		n1, n2 := 6+rng.Intn(20), 6+rng.Intn(20)
+		fmt.Fprintf(w, "{{\n")
+		for q := 0; q < 12; q++ {
+			u := float64(rng.Intn(2*n1*n2+1)) / 2
+			if rng.Intn(2) == 0 {
+				u = float64(rng.Intn(3 * minI(n1, n2)))
+			}
+			for _, v := range []float64{u, float64(n1*n2) - u - 1, float64(n1*n2) - u, u + 0.5} {
+				if v >= 0 {
+					fmt.Fprintf(w, "ud %d %d [] cdf %s\n", n1, n2, fmtF(v))
+				}
+			}
+		}
+		fmt.Fprintf(w, "}}\n")
+	}
 	// random larger: untied to 50+50, tied to 25+25
 	nl := pick(tier, 60, 1500)
 	for k := 0; k < nl; k++ {
@@ -347,10 +422,67 @@ func genC01(w *bufio.Writer, tier string, rng *rand.Rand) {
 		if len(x1) == 0 || len(x2) == 0 {
 			continue
 		}
-		emit(x1, x2, rng.Intn(3)-1)
-		if rng.Intn(3) == 0 {
-			emit(x2, x1, rng.Intn(3)-1)
+		// every alternative on the same data, in a random order, then the swapped pair: the
+		// result for one alternative may not depend on which were asked before
+		for _, ai := range rng.Perm(3) {
+			emit(x1, x2, ai-1)
 		}
+		if rng.Intn(3) == 0 {
+			for _, ai := range rng.Perm(3)[:1+rng.Intn(3)] {
+				emit(x2, x1, ai-1)
+			}
+		}
+	}
+	denseMWU(w, rng, pick(tier, 25, 400), 50, 25)
+}
+
+// denseMWU emits histories: many tests in one fresh process on samples of one fixed pair of
+// sizes, tie-free and tied mixed, all alternatives and both argument orders, so that calls which
+// agree in sizes, statistic or alternative but differ in data follow each other closely.
+func denseMWU(w *bufio.Writer, rng *rand.Rand, blocks, el, tl int) {
+	for b := 0; b < blocks; b++ {
+		n1, n2 := 2+rng.Intn(7), 2+rng.Intn(7)
+		if rng.Intn(3) == 0 {
+			n1, n2 = 7+rng.Intn(6), 7+rng.Intn(6)
+		}
+		if rng.Intn(4) == 0 {
+			n2 = n1
+		}
+		fmt.Fprintf(w, "{{\n")
+		for q := 0; q < 40; q++ {
+			N := n1 + n2
+			vals := make([]float64, N)
+			switch rng.Intn(3) {
+			case 0: // tie-free
+				for i, p := range rng.Perm(N) {
+					vals[i] = float64(p+1) * 0.5
+				}
+			case 1: // a few ties
+				for i, p := range rng.Perm(N) {
+					vals[i] = float64((p + 1) / 2 * 2)
+					if rng.Intn(3) == 0 {
+						vals[i] = float64(p + 1)
+					}
+				}
+			default: // heavy ties
+				for i := range vals {
+					vals[i] = float64(rng.Intn(4))
+				}
+			}
+			x1, x2 := vals[:n1], vals[n1:]
+			if rng.Intn(4) == 0 {
+				x1, x2 = vals[:n2], vals[n2:]
+			}
+			alt := rng.Intn(3) - 1
+			fmt.Fprintf(w, "mwu %s %s %d %d %d\n", fmtFs(x1), fmtFs(x2), alt, el, tl)
+			switch rng.Intn(4) {
+			case 0:
+				fmt.Fprintf(w, "mwu %s %s %d %d %d\n", fmtFs(x2), fmtFs(x1), -alt, el, tl)
+			case 1:
+				fmt.Fprintf(w, "mwu %s %s %d %d %d\n", fmtFs(x1), fmtFs(x2), (alt+2)%3-1, el, tl)
+			}
+		}
+		fmt.Fprintf(w, "}}\n")
 	}
 }
 
@@ -438,5 +570,8 @@ func genC03(w *bufio.Writer, tier string, rng *rand.Rand) {
 		case 3: // same data under the other method
 			emit(x1, x2, alt, 0, 0)
 		}
+	}
+	for _, lim := range [][2]int{{50, 25}, {50, 25}, {10, 40}, {1000000, 1000000}} {
+		denseMWU(w, rng, pick(tier, 10, 150), lim[0], lim[1])
 	}
 }
